@@ -21,7 +21,8 @@ package c17
 //	            s = deadline: ProposerConfig + the deadline strategy, as auctionBlock does;
 //	            result = mask of the relays that were asked for a header for the call's slot
 //	Fetch(r)    util.FetchBuilderClient for relay r, as the loops of UnblindBlock / ValidatorRegistrations do;
-//	            result 1 = a client, the same one as every other Fetch of the history got; -2 another one; -1 error
+//	            (twice: this request's and the next one's); result 1 = a client, both times the same one, and the
+//	            same one as every other Fetch of the history got; -2 another one; -1 error
 
 import (
 	"context"
@@ -324,6 +325,14 @@ func (g *c17BuilderClients) Call(ctx context.Context, id int, op c17Op) int {
 		client, err := util.FetchBuilderClient(ctx, addr, nullmetrics.New(), "verif")
 		if err != nil || client == nil {
 			return -1
+		}
+		// ... and once more (the loop of the next request): one client per relay
+		again, err := util.FetchBuilderClient(ctx, addr, nullmetrics.New(), "verif")
+		if err != nil {
+			return -1
+		}
+		if again != client {
+			return -2
 		}
 		g.mu.Lock()
 		defer g.mu.Unlock()
